@@ -418,7 +418,23 @@ func (sdb *DbSqlite) initJwtKey() error {
 	return nil
 }
 
+// checkPointValues refuses values the store cannot represent. SQLite stores
+// NaN as NULL, which can't be read back, so the node would become unreadable.
+func checkPointValues(points data.Points) error {
+	for _, p := range points {
+		if math.IsNaN(p.Value) {
+			return fmt.Errorf("Error: value of point %v:%v is NaN", p.Type, p.Key)
+		}
+	}
+
+	return nil
+}
+
 func (sdb *DbSqlite) nodePoints(id string, points data.Points) error {
+	if err := checkPointValues(points); err != nil {
+		return err
+	}
+
 	points.Collapse()
 
 	sdb.writeLock.Lock()
@@ -559,6 +575,10 @@ NextPin:
 }
 
 func (sdb *DbSqlite) edgePoints(nodeID, parentID string, points data.Points) error {
+	if err := checkPointValues(points); err != nil {
+		return err
+	}
+
 	points.Collapse()
 
 	if nodeID == parentID {
